@@ -2,7 +2,7 @@
 
 use crate::util::future::{Future, FutureProvider};
 use crate::util::ChainGangError;
-use std::sync::{Arc, RwLock, TryLockError, Weak};
+use std::sync::{Arc, Mutex, RwLock, Weak};
 use std::time::Duration;
 
 /// Observes an event of type T
@@ -36,16 +36,14 @@ pub trait Observable<T: Send + Sync + Clone + 'static> {
 
 /// Stores the observers for a particular event
 pub struct Subject<T> {
-    observers: RwLock<Vec<Weak<dyn Observer<T>>>>,
-    pending: RwLock<Vec<Weak<dyn Observer<T>>>>,
+    observers: Mutex<Vec<Weak<dyn Observer<T>>>>,
 }
 
 impl<T> Subject<T> {
     /// Creates a new empty set of observers
     pub fn new() -> Subject<T> {
         Subject {
-            observers: RwLock::new(Vec::new()),
-            pending: RwLock::new(Vec::new()),
+            observers: Mutex::new(Vec::new()),
         }
     }
 }
@@ -58,27 +56,19 @@ impl<T> Default for Subject<T> {
 
 impl<T> Observer<T> for Subject<T> {
     fn next(&self, event: &T) {
-        let mut any_to_remove = false;
+        // Take a snapshot of the live observers under the lock, then call them with no lock
+        // held: a callback may subscribe (it takes effect for later events), and an observer
+        // whose subscribe() has returned is in the snapshot of every later publication.
+        let mut observers = self.observers.lock().unwrap();
+        observers.retain(|observer| observer.strong_count() > 0);
+        let snapshot: Vec<Arc<dyn Observer<T>>> = observers
+            .iter()
+            .filter_map(|observer| observer.upgrade())
+            .collect();
+        drop(observers);
 
-        {
-            for observer in self.observers.read().unwrap().iter() {
-                match observer.upgrade() {
-                    Some(observer) => observer.next(event),
-                    None => any_to_remove = true,
-                }
-            }
-        }
-
-        if any_to_remove {
-            let mut observers = self.observers.write().unwrap();
-            observers.retain(|observer| observer.upgrade().is_some());
-        }
-
-        let any_pending = { self.pending.read().unwrap().len() > 0 };
-        if any_pending {
-            let mut observers = self.observers.write().unwrap();
-            let mut pending = self.pending.write().unwrap();
-            observers.append(&mut pending);
+        for observer in snapshot.iter() {
+            observer.next(event);
         }
     }
 }
@@ -86,18 +76,9 @@ impl<T> Observer<T> for Subject<T> {
 impl<T: Send + Sync + Clone + 'static> Observable<T> for Subject<T> {
     fn subscribe<S: Observer<T> + 'static>(&self, observer: &Arc<S>) {
         let weak_observer = Arc::downgrade(observer) as Weak<dyn Observer<T>>;
-
-        match self.observers.try_write() {
-            Ok(mut observers) => observers.push(weak_observer),
-
-            // If we would block, add to a pending set
-            Err(TryLockError::WouldBlock) => {
-                self.pending.write().unwrap().push(weak_observer);
-            }
-
-            // If observer is poisoned, app will be killed soon
-            Err(TryLockError::Poisoned(_)) => panic!("Observer lock poisoned"),
-        }
+        let mut observers = self.observers.lock().unwrap();
+        observers.push(weak_observer);
+        drop(observers);
     }
 }
 
@@ -129,8 +110,14 @@ impl<T: Sync + Send + Clone> Default for Single<T> {
 impl<T: Sync + Send + Clone> Observer<T> for Single<T> {
     fn next(&self, event: &T) {
         let mut value = self.value.write().unwrap();
-        if value.is_none() {
+        let first = value.is_none();
+        if first {
             *value = Some(event.clone());
+        }
+        drop(value);
+
+        // The value lock is released before emitting, so observers may subscribe from a callback
+        if first {
             self.subject.next(event);
         }
     }
@@ -138,9 +125,17 @@ impl<T: Sync + Send + Clone> Observer<T> for Single<T> {
 
 impl<T: Sync + Send + Clone + 'static> Observable<T> for Single<T> {
     fn subscribe<S: Observer<T> + 'static>(&self, observer: &Arc<S>) {
-        match &*self.value.read().unwrap() {
-            Some(value) => observer.next(value),
-            None => self.subject.subscribe(observer),
+        // While the value is unset the observer is added under the read guard, so it is in the
+        // list before the emission (which takes the write lock first) makes its snapshot.
+        let value = self.value.read().unwrap();
+        let existing = (*value).clone();
+        if existing.is_none() {
+            self.subject.subscribe(observer);
+        }
+        drop(value);
+
+        if let Some(existing) = existing {
+            observer.next(&existing);
         }
     }
 }
